@@ -12,5 +12,5 @@ Extraction "extracted.ml"
   pw_new pw_min pw_find pw_find_prefilter pf_new pf_find_prefilter find_spec rfind_spec
   tw_new tw_new_rev tw_find tw_rfind prestate_new pre_update pre_is_effective
   finder_new rfinder_new finder_find rfinder_rfind memmem_find memmem_rfind
-  fiter_new fiter_run riter_new riter_run
+  fiter_new fiter_run riter_new riter_run fiter_next fiter_size_hint riter_next
   tw_cert_fwd_of tw_cert_rev_of.
